@@ -176,3 +176,19 @@ def decode_edit(pl):
             raise ValueError('unknown edit tag %d' % tag)
     if p != len(pl): raise ValueError('edit overrun')
     return e
+
+
+def encode_edit(e):
+    """The LevelDB VersionEdit encoding, fields in the canonical order (comparator, log, prev log, next file, last sequence,
+    compact pointers, deleted files, new files)."""
+    out = bytearray()
+    def lp(b): return put_varint(len(b)) + bytes(b)
+    if e.get('comparator') is not None: out += put_varint(1) + lp(e['comparator'].encode('latin1'))
+    if e.get('log') is not None: out += put_varint(2) + put_varint(e['log'])
+    if e.get('prevlog') is not None: out += put_varint(9) + put_varint(e['prevlog'])
+    if e.get('nextfile') is not None: out += put_varint(3) + put_varint(e['nextfile'])
+    if e.get('lastseq') is not None: out += put_varint(4) + put_varint(e['lastseq'])
+    for lv, k in e.get('compact', []): out += put_varint(5) + put_varint(lv) + lp(k)
+    for lv, num in e.get('deleted', []): out += put_varint(6) + put_varint(lv) + put_varint(num)
+    for lv, num, sz, sm, lg in e.get('added', []): out += put_varint(7) + put_varint(lv) + put_varint(num) + put_varint(sz) + lp(sm) + lp(lg)
+    return bytes(out)
